@@ -706,7 +706,7 @@ def _converter_extra(cls, meth, inst):
     return extra
 
 
-def _check_converter(ctx, cls, meth, has_copy, inst, origin):
+def _check_converter(ctx, cls, meth, has_copy, inst, origin, obs=None):
     """one instance through one converter with copy in {True, False} (or without the parameter)"""
     from pydicom.dataset import Dataset
     name = f'{cls.__module__.replace("highdicom.", "")}.{cls.__qualname__}.{meth}'
@@ -747,6 +747,8 @@ def _check_converter(ctx, cls, meth, has_copy, inst, origin):
             continue
         ctx.case(sample=case if ctx.evaluations % 53 == 0 else None, nontrivial_key=('conv', name, copy),
                  converter=name, converter_outcome='ok', copy=copy)
+        if obs is not None:
+            obs.append((f'{cls.__qualname__}.{meth}', copy, res is plain, snap(plain) != before, case))
         if copy is False:
             # in-place conversion was requested: the same object comes back
             # (a sequence converter may have to build a new container; then its items must be the caller's items)
@@ -786,6 +788,7 @@ def _objects(ctx):
     for (c, meth), has_copy in conv.items():
         by_class.setdefault(c, []).append((meth, has_copy))
     seen_per = {}
+    obs = []
     import pydicom
     for case, obj, blob in built:
         # SOP-level converters on the file that was written (plain pydicom objects all the way down)
@@ -797,7 +800,7 @@ def _objects(ctx):
                         continue
                     seen_per[(c, meth)] = seen_per.get((c, meth), 0) + 1
                     plain = pydicom.dcmread(io.BytesIO(blob))
-                    _check_converter(ctx, c, meth, has_copy, plain, case['subject'])
+                    _check_converter(ctx, c, meth, has_copy, plain, case['subject'], obs)
         acc = []
         _harvest(obj, acc)
         for inst in acc:
@@ -810,12 +813,93 @@ def _objects(ctx):
                     if seen_per.get((c, meth), 0) >= ctx.n(6, 40):
                         continue
                     seen_per[(c, meth)] = seen_per.get((c, meth), 0) + 1
-                    _check_converter(ctx, c, meth, has_copy, inst, case['subject'])
+                    _check_converter(ctx, c, meth, has_copy, inst, case['subject'], obs)
     missing = sorted(f'{c.__module__.replace("highdicom.", "")}.{c.__qualname__}.{m}' for (c, m) in conv if (c, m) not in seen_per)
     ctx.note(f'converters exercised: {len(seen_per)} of {len(conv)}; not reached by any generated object: {missing}')
     ctx.hist('converters', 'exercised', len(seen_per))
     ctx.hist('converters', 'not-reached', len(missing))
+    _seg_plane_helper(ctx, obs)
+    _compare_alias_model(ctx, obs)
     logging.disable(logging.NOTSET)
+
+
+def _seg_plane_helper(ctx, obs):
+    """L2: the real `Segmentation._get_segment_pixel_array` on planes of every dtype / rank / segmentation type: does the
+    result share memory with the argument, was the argument altered (the model predicts what is possible)."""
+    import highdicom as hd
+    from highdicom.seg import SegmentationTypeValues as ST
+    f = getattr(hd.seg.Segmentation, '_get_segment_pixel_array', None)
+    if f is None:
+        ctx.note('L2 helper Segmentation._get_segment_pixel_array not found; skipped')
+        return
+    for i in range(ctx.n(200, 3000)):
+        r = ctx.rng('plane', i)
+        nr = ctx.np_rng('plane', i)
+        dt = r.choice(['uint8', 'uint8', 'uint16', 'float32', 'float64', 'bool'])
+        nseg = r.choice([1, 1, 2, 3])
+        stacked = r.random() < 0.5
+        styp = r.choice([ST.BINARY, ST.FRACTIONAL, ST.FRACTIONAL, ST.LABELMAP])
+        if dt.startswith('float'):
+            styp = ST.FRACTIONAL
+        shape = (r.randint(1, 4), r.randint(1, 4)) + ((nseg,) if stacked else ())
+        if dt.startswith('float'):
+            a = (nr.integers(0, 5, size=shape) / 4.0).astype(dt)
+        elif stacked:
+            a = (nr.random(shape) < 0.5).astype(dt)
+        else:
+            a = nr.integers(0, nseg + 1, size=shape).astype(dt)
+        out_dt = np.uint8 if styp != ST.LABELMAP else r.choice([np.uint8, np.uint16])
+        mfv = r.choice([255, 255, 1, 100])
+        seg_no = r.randint(1, nseg)
+        before = a.copy()
+        try:
+            res = f(a, segment_number=seg_no, described_segment_numbers=np.arange(1, nseg + 1), segmentation_type=styp,
+                    max_fractional_value=mfv, dtype=out_dt)
+        except Exception as e:  # noqa: BLE001
+            ctx.hist('plane_helper', 'refused:' + type(e).__name__)
+            continue
+        changed = not np.array_equal(before, a, equal_nan=True) if a.dtype.kind == 'f' else not np.array_equal(before, a)
+        shares = bool(np.shares_memory(res, a))
+        case = {'helper': '_get_segment_pixel_array', 'dtype': dt, 'stacked': stacked, 'nseg': nseg, 'type': styp.value,
+                'mfv': mfv, 'out': np.dtype(out_dt).name, 'idx': i, 'layer': 'L2'}
+        ctx.case(nontrivial_key=('plane', dt, stacked, nseg > 1, styp.value, mfv, np.dtype(out_dt).name),
+                 plane_helper=f'{dt}/{"4d" if stacked else "3d"}/{styp.value}', plane_shares=shares)
+        if changed:
+            ctx.fail(case, 'the plane handed to _get_segment_pixel_array (a view of the caller\'s pixel_array) was altered',
+                     site='seg/_get_segment_pixel_array')
+        obs.append(('Segmentation._get_segment_pixel_array', None, res is a, changed, dict(case, shares=shares)))
+
+
+def _compare_alias_model(ctx, obs):
+    """observed (same object? argument altered?) must be among the behaviours the extracted program allows"""
+    keys = sorted({(n, c) for n, c, *_ in obs}, key=repr)
+    reqs = [('alias', {'name': n, **({'copy': c} if c is not None else {})}) for n, c in keys]
+    ans = ctx.model(reqs)
+    if ans is None:
+        return
+    pred = {}
+    for k, a in zip(keys, ans):
+        pred[k] = a.get('ok')
+    unknown = set()
+    for name, copy, same, altered, case in obs:
+        es = pred.get((name, copy))
+        if not es:
+            unknown.add(name)
+            continue
+        layer = case.get('layer', 'L0')
+        for e in es:
+            if same and not e['same']:
+                ctx.disagree(layer, case, 'returned the object it was given', e, 'alias model: same object not predicted')
+            if not same and not (e['fresh'] or e['part']):
+                ctx.disagree(layer, case, 'returned a different object', e, 'alias model: different object not predicted')
+            if altered and not e['writes0']:
+                ctx.disagree(layer, case, 'argument altered', e, 'alias model: write to the argument not predicted')
+            if case.get('shares') and not (e['same'] or e['part']):
+                ctx.disagree(layer, case, 'result shares memory with the argument', e, 'alias model: aliasing not predicted')
+    if unknown:
+        ctx.note(f'converters without an extracted program (inherited or renamed): {sorted(unknown)}')
+    ctx.hist('alias_model', 'observations', len(obs))
+    ctx.hist('alias_model', 'programs_compared', len([k for k in keys if pred.get(k)]))
 
 
 def run(ctx):
